@@ -2,11 +2,11 @@
 
    Code modelled (scylla-rust-driver, /repo):
      scylla/src/network/connection.rs
-       calculate_cached_metadata_params   (974-1044)   -> [cached_params]
-       handle_result_metadata_new_id      (938-972)    -> [handle_new_id]
+       calculate_cached_metadata_params   (982-1052)   -> [cached_params]
+       handle_result_metadata_new_id      (938-980)    -> [handle_new_id]
        reprepare                          (695-743)    -> [reprepare_update] + id check in [recv_prep]
-       execute_raw_with_consistency       (1046-1148)  -> [start_exec], [call_recv], [call_tick]
-       batch_with_consistency loop        (1212-1245)  -> [start_batch], [call_recv]
+       execute_raw_with_consistency       (1054-1156)  -> [start_exec], [call_recv], [call_tick]
+       batch_with_consistency loop        (1220-1254)  -> [start_batch], [call_recv]
      scylla/src/statement/prepared.rs  current_result_metadata : ArcSwap  -> the per-statement cell
      scylla-cql/src/frame/response/result.rs
        RawMetadataAndRawRows::deserialize_metadata (902-959) -> [used_meta]
@@ -925,9 +925,9 @@ Definition prop_exec_ok (ST : nat -> stmt) (faithful_expected : bool) (a : xargs
   | [x1; x2] =>
       match x_req x1, x_resp x1, x_req x2, x_resp x2 with
       | Q_execute f1, RUnprepared _, Q_prepare t, RPrepared id _ =>
-          (* only acceptable when the id changed: error, and nothing was resent *)
-          N.eqb t (s_text st) && negb (bytes_eqb id (s_id st)) &&
-          match out with OB_err E_IdChanged => true | _ => false end
+          (* only acceptable when the id changed: "the caller gets an error rather than a mis-bound
+             execution" — any error (WHICH error is the acceptor's business), and nothing was resent *)
+          N.eqb t (s_text st) && negb (bytes_eqb id (s_id st)) && is_err out
       | Q_execute f1, RUnprepared _, Q_prepare t, _ => N.eqb t (s_text st) && is_err out
       | _, _, _, _ => false
       end
@@ -957,7 +957,7 @@ Fixpoint prop_batch_tail (ST : nat -> stmt) (b : bargs) (F : batch_frame) (xs : 
               | Q_prepare t, RPrepared id' _ =>
                   N.eqb t (s_text (ST p)) &&
                   if bytes_eqb id' (s_id (ST p)) then prop_batch_tail ST b F r' out
-                  else match r', out with [], OB_err E_IdChanged => true | _, _ => false end
+                  else match r' with [] => is_err out | _ => false end
               | Q_prepare t, _ => N.eqb t (s_text (ST p)) && match r' with [] => is_err out | _ => false end
               | _, _ => false
               end
